@@ -10,4 +10,24 @@ def evalPodModel (T : Tables) (relax : Bool) (lv : LevelVersion) (p : Pod) : Lis
 theorem render_allowed (k : Kind) (o : CheckOut) : (render k o).allowed = o.allowed := by
   unfold render; split <;> simp_all
 
+/-! ### the administrator's switch (`policy.RelaxPolicyForUserNamespacePods`): an atomic.Bool whose setter stores its argument -/
+
+/-- the switch after a sequence of setter calls, starting from `init` (the process starts with `false`) -/
+def switchAfter (init : Bool) (calls : List Bool) : Bool := calls.foldl (fun _ b => b) init
+
+theorem switchAfter_append (init : Bool) (calls : List Bool) (b : Bool) : switchAfter init (calls ++ [b]) = b := by
+  simp [switchAfter]
+
+theorem switchAfter_last (init : Bool) (calls : List Bool) : switchAfter init calls = calls.getLast?.getD init := by
+  induction calls generalizing init with
+  | nil => rfl
+  | cons c cs ih =>
+    simp only [switchAfter, List.foldl_cons] at ih ⊢
+    rw [ih c]
+    cases cs with
+    | nil => rfl
+    | cons d ds =>
+      have hne : d :: ds ≠ [] := by simp
+      rw [List.getLast?_cons_cons, List.getLast?_eq_some_getLast hne]; rfl
+
 end PSA
